@@ -114,6 +114,8 @@ def base_world(conv: str, rng: random.Random) -> dict:
     else:
         w = GW.structured_world(conv, 2, 3, shape="skew", bounds=(conv != "arakawa"))
     CD.add_data_vars(w, rng, rich=False)
+    if conv == "ugrid":
+        w["first_var"] = "eta"      # a (time, face) variable declared first: the time dimension (two records) precedes "Two"
     return w
 
 
